@@ -276,6 +276,7 @@ CHECK_DEADLOCK FALSE
 	run.Sample(map[string]interface{}{"position": cases[len(cases)/2].Kind, "string": str(cases[len(cases)/2].Input), "spec_ok": cases[len(cases)/2].Ok})
 	cli(run, e, names, w)
 	headerMentions(run, e, names, w)
+	besideExecutable(run, e)
 	run.Finish()
 }
 
@@ -406,4 +407,50 @@ type stanzaRecipient struct{ typ string }
 
 func (r stanzaRecipient) Wrap(fileKey []byte) ([]*age.Stanza, error) {
 	return []*age.Stanza{{Type: r.typ, Args: []string{"a"}, Body: []byte{1, 2, 3}}}, nil
+}
+
+// besideExecutable: the program for a valid name is found by searching PATH and nowhere else. A sentinel
+// age-plugin-besideexe lies next to the running executables (this process's and the age binary's) but in no PATH
+// directory: using the name must fail to find a plugin and must start nothing.
+func besideExecutable(run *vk.Run, e *env) {
+	const name = "besideexe"
+	ageBin := filepath.Join(vk.BuildCLI(), "age")
+	dirs := map[string]bool{filepath.Dir(ageBin): true}
+	if exe, err := os.Executable(); err == nil {
+		dirs[filepath.Dir(exe)] = true
+	}
+	var planted []string
+	for d := range dirs {
+		p := filepath.Join(d, "age-plugin-"+name)
+		if err := os.WriteFile(p, []byte(strings.Replace(strings.Replace(sentinel, "LOGFILE", e.log, 1), "SELFPATH", p, 1)), 0o755); err != nil {
+			vk.Infra("planting %s: %v", p, err)
+		}
+		planted = append(planted, p)
+	}
+	defer func() {
+		for _, p := range planted {
+			os.Remove(p)
+		}
+	}()
+	os.WriteFile(e.log, nil, 0o644)
+	ui := &plugin.ClientUI{}
+	fileKey := []byte("0123456789abcdef")
+	stanzas := []*age.Stanza{{Type: "X25519", Args: []string{"TEiF0ypqr+bpvcqXNyCVJpL7OuwPdVwPL7KQEbFDOCc"}, Body: bytes.Repeat([]byte{1}, 32)}}
+	func() {
+		defer func() { recover() }()
+		if id, err := plugin.NewIdentityWithoutData(name, ui); err == nil {
+			id.Unwrap(stanzas)
+			id.Recipient().Wrap(fileKey)
+		}
+		if r, err := plugin.NewRecipient(plugin.EncodeRecipient(name, []byte("data")), ui); err == nil {
+			r.Wrap(fileKey)
+		}
+	}()
+	envv := []string{"PATH=" + e.first + ":" + e.second + ":/usr/bin:/bin", "TMPDIR=" + e.tmp}
+	p := vk.RunProc(20*time.Second, e.cwd, envv, []byte("hello"), ageBin, "-e", "-j", name, "-o", filepath.Join(e.root, "beside.age"))
+	run.Eval(3)
+	if l := e.logLines(); len(l) > 0 && l[0] != "" {
+		run.Violation("C17:wrong-program-started:beside-executable", fmt.Sprintf("no PATH directory holds age-plugin-%s, yet a copy lying next to the running executable was started: %v (age -j exit %d)", name, l, p.Exit), map[string]interface{}{"check": "C17.beside"})
+	}
+	run.Distinct("beside-executable")
 }
